@@ -143,6 +143,8 @@ def buildable_families():
             kw = {}
             if fam == "master-page":
                 kw["page_layout"] = "pl1"
+            if fam == "font-face":
+                kw["font_name"] = "probe"
             s = Style(fam, name="probe", **kw)
             if s.family == fam:
                 ok.append(fam)
@@ -180,7 +182,16 @@ def gen_ops(rng, families, n):
                     name = f"ta_{rng.choice([0, 0, 1, 2])}"  # a user style named like the ones set_table_displayed generates
             if kind == "automatic-unnamed":
                 name = None
-            ops.append({"op": "insert_style", "family": fam, "kind": kind, "name": name, "as_xml": rng.random() < 0.15, "name_arg": rng.random() < 0.15})
+            op = {"op": "insert_style", "family": fam, "kind": kind, "name": name, "as_xml": rng.random() < 0.15, "name_arg": rng.random() < 0.15}
+            if name and kind != "default" and rng.random() < 0.2:
+                # the name of a style this family already has somewhere in the document (resolved at run time;
+                # an automatic style of styles.xml is planted the way another producer writes it when there is none)
+                op["existing_from"] = rng.choice([["styles.xml", "automatic-styles"], ["styles.xml", "automatic-styles"], ["styles.xml", "styles"], ["styles.xml", "font-face-decls"], ["content.xml", "font-face-decls"], ["styles.xml", "master-styles"]])
+            ops.append(op)
+            if name and rng.random() < 0.2:
+                # theme: the same insertion again with a fresh, identical object, then once more with other content
+                ops.append(dict(op, as_xml=False))
+                ops.append(dict(op, as_xml=rng.random() < 0.3, colour="#654321"))
             if name:
                 used.append((fam, name, kind))
         elif k < 0.78:
@@ -203,9 +214,18 @@ def make_style(op):
     if op["family"] == "master-page":
         kw["page_layout"] = "pl1"
     name = None if op.get("name_arg") else op["name"]
+    if op["family"] == "font-face":
+        # (a font face is named by its font: no name given on the fly)
+        name = op["name"]
+        kw["font_name"] = name
+        kw["font_family"] = "vf family"
     st = Style(op["family"], name=name, **kw)
     if op["family"] in ("paragraph", "text"):
-        st.set_properties({"fo:color": "#123456"}, area="text")
+        st.set_properties({"fo:color": op.get("colour", "#123456")}, area="text")
+    elif op.get("colour") and op["family"] == "font-face":
+        st.set_attribute("style:font-pitch", "fixed")
+    elif op.get("colour") and op["family"] not in ("master-page", "page-layout"):
+        st.set_attribute("style:display-name", "vf " + op["colour"])
     if op["family"] == "paragraph" and op["name"] == "odfdopagebreak":
         st.set_properties({"fo:margin-top": "1cm"}, area="paragraph")
     return st
@@ -237,23 +257,45 @@ def run_case(case, res):
                 fam, kind = op["family"], op["kind"]
                 automatic = kind.startswith("automatic")
                 default = kind in ("default", "font-default")
+                if op.get("existing_from"):
+                    op = dict(op)
+                    epart, econt = op["existing_from"]
+                    have = sorted(k[4] for k in before if k[0] == epart and k[1] == econt and k[3] == fam and k[4] and k[2] != "default-style")
+                    # (only names that one style of the family carries: a name already ambiguous is the caller's mistake)
+                    have = [h for h in have if sum(len(v) for k, v in before.items() if k[3] == fam and k[4] == h and k[2] != "default-style") == 1]
+                    if have:
+                        op["name"] = have[0]
+                    elif (epart, econt) == ("styles.xml", "automatic-styles") and fam not in ("master-page", "page-layout", "font-face") and not any(k[3] == fam and k[4] == op["name"] for k in before):
+                        proot = doc.styles.root._Element__element
+                        cont_el = proot.find("{%s}automatic-styles" % OFFICE)
+                        if cont_el is not None:
+                            planted = etree.SubElement(cont_el, STYLE + "style")
+                            planted.set(STYLE + "name", op["name"])
+                            planted.set(STYLE + "family", fam)
+                            before = census(doc)
+                            bsig = keys_sig(before)
                 st = make_style(op)
                 arg = st.serialize(with_ns=True) if op.get("as_xml") else st
                 kwargs = {"automatic": automatic, "default": default}
-                if op.get("name_arg") and op["name"]:
+                if op.get("name_arg") and op["name"] and fam != "font-face":
                     kwargs["name"] = op["name"]
                 pre_same = any(k[3] == fam and k[4] == op["name"] for k in before) if op["name"] else False
                 if op["name"] and kind != "default":
                     part0, cont0 = expected_place(fam, automatic, default)
-                    if any(k[3] == fam and k[4] == op["name"] and (k[0], k[1]) != (part0, cont0) for k in before):
-                        # same family+name already exists in another kind: one name space, caller's mistake
+                    if any(k[3] == fam and k[4] == op["name"] and k[0] != part0 for k in before):
+                        # same family+name already exists in the other part: one name space, caller's mistake
                         if res is not None:
                             res.count("skipped_same_name_other_kind")
                         continue
+                    # the same family+name in another container of the *same* part (an automatic style of
+                    # styles.xml, say) is what the library itself looks up and replaces: judged, see below
+                    same_part_other = [k for k in before if k[3] == fam and k[4] == op["name"] and k[0] == part0 and k[1] != cont0 and k[2] != "default-style"]
+                else:
+                    same_part_other = []
                 ret = doc.insert_style(arg, **kwargs)
                 after = census(doc)
                 part, cont = expected_place(fam, automatic, default)
-                cls = (o, fam, kind, "named" if op["name"] else "unnamed", "pre-existing" if pre_same else "new", "xml" if op.get("as_xml") else "obj", dtype)
+                cls = (o, fam, kind, "named" if op["name"] else "unnamed", "pre-existing-other-container" if same_part_other else "pre-existing" if pre_same else "new", "xml" if op.get("as_xml") else "obj", dtype)
                 if kind == "default":
                     hits = [k for k in after if k[0] == part and k[1] == cont and k[2] == "default-style" and k[3] == fam]
                     if len(hits) != 1 or len(after[hits[0]]) != 1:
@@ -276,6 +318,10 @@ def run_case(case, res):
                         asig = keys_sig(after)
                         exp = dict(bsig)
                         exp[right[0]] = 1
+                        for k in same_part_other:
+                            # replaced along with it or left alone: the property demands neither
+                            if k not in asig:
+                                exp.pop(k, None)
                         if asig != exp:
                             diff = {str(k): [bsig.get(k), asig.get(k)] for k in set(asig) | set(exp) if asig.get(k) != exp.get(k)}
                             out.append(("insert_style:other-styles-changed", {"diff": dict(list(diff.items())[:5])}))
@@ -284,6 +330,12 @@ def run_case(case, res):
                         if got is None or got._Element__element is not new_node:
                             other = [list(k) for k in hits if k != right[0]]
                             out.append(("insert_style:lookup-does-not-return-the-inserted-style", {"family": fam, "name": name, "got": None if got is None else got.serialize()[:200], "same_name_elsewhere": other}))
+                        if not op.get("as_xml") and st._Element__element is not new_node:
+                            # "puts it in the part and container": what is adjusted on the object after the call
+                            # (the idiom of set_table_displayed / add_page_break_style) must reach the document
+                            out.append(("insert_style:the-object-given-is-not-the-one-in-the-document", {"family": fam, "name": name, "kind": kind, "pre_existing": pre_same}))
+                        if same_part_other and res is not None:
+                            res.count("same_name_in_other_container_of_the_part")
                         inserted.append((fam, name, right[0], node_sig(new_node)))
             elif o == "many_unnamed":
                 fam = op["family"]
@@ -422,6 +474,9 @@ def run_case(case, res):
                             d[(k[0], k[2], k[3], k[4])] = d.get((k[0], k[2], k[3], k[4]), 0) + len(v)
                     return d
 
+                # an inserted style the source replaced by its own of that family+name in another container of the
+                # part (judged just above) is no longer expected at its old place after the reload
+                inserted = [t for t in inserted if t[2] in after]
                 pb, pa = per_part(before), per_part(after)
                 dup = [list(k) + [n] for k, n in pa.items() if n > 1 and pb.get(k, 0) <= 1]
                 if dup:
@@ -465,10 +520,25 @@ def run_case(case, res):
 def run(ctx, res):
     fams = buildable_families()
     res.info["families"] = fams
-    for c in range(CASES[ctx.tier]):
+    # themed cases first (every source): each kind of the families with a container of their own inserted three
+    # times under one name (fresh identical object, then other content), under a new name and under the name of a
+    # style the document already declares there
+    themed = []
+    for src in SOURCES:
+        for fam, kind in (("font-face", "font-default"), ("font-face", "common"), ("master-page", "common"), ("page-layout", "common"), ("paragraph", "common"), ("paragraph", "automatic"), ("graphic", "common")):
+            for ex in (None, {"font-default": ["styles.xml", "font-face-decls"], "automatic": None}.get(kind, ["content.xml", "font-face-decls"] if fam == "font-face" else ["styles.xml", "master-styles"] if fam == "master-page" else ["styles.xml", "automatic-styles"])):
+                op = {"op": "insert_style", "family": fam, "kind": kind, "name": "vf themed", "as_xml": False, "name_arg": False}
+                if ex:
+                    op["existing_from"] = ex
+                themed.append({"source": src, "ops": [op, dict(op), dict(op, colour="#654321"), dict(op, as_xml=True)]})
+    themed = themed[ctx.shard :: ctx.nshards]
+    for c in range(CASES[ctx.tier] + len(themed)):
         rng = ctx.rng(c)
-        case = {"source": SOURCES[c % len(SOURCES)], "ops": gen_ops(rng, fams, rng.randint(1, 8))}
-        if rng.random() < 0.25:
+        if c >= CASES[ctx.tier]:
+            case = themed[c - CASES[ctx.tier]]
+        else:
+            case = {"source": SOURCES[c % len(SOURCES)], "ops": gen_ops(rng, fams, rng.randint(1, 8))}
+        if c < CASES[ctx.tier] and rng.random() < 0.25:
             case["source"] = f"variant:{rng.choice(['text', 'spreadsheet', 'presentation', 'drawing', 'example.odt'])}:{rng.randrange(200)}"
         try:
             v = run_case(case, res)
